@@ -84,7 +84,7 @@ def run_engine(c, pid):
     thorough = c.tier == "thorough"
     c.rule = ("paragraph = synthetic shaped runs over text in {a, SP, LF, U+0301, '-'}^<=N x all cluster partitions x 1-2 glyphs per cluster x <=R runs x LTR/RTL "
               "x paragraph direction x 3 policies x truncation {0,1,2} x TextContinues x every width 0..total+1 (both APIs, trim on/off sampled by seed), "
-              "plus letter/word-spacing and level-sequence (bidi) classes; UAX #14/#29 boundaries are facts from the real segmenter (checked by C06); "
+              "plus letter/word-spacing, level-sequence (bidi) classes and real paragraphs through Split -> Shape -> AddSpacing on four corpus fonts (ligatures, multi-glyph clusters, mixed scripts); UAX #14/#29 boundaries are facts from the real segmenter (checked by C06); "
               "non-trivial = paragraph produced >= 2 lines or a truncator; distinct = distinct (scenario, config, width) keys (the enumeration never repeats one)")
     c.assumptions = ["break opportunities are taken from the real segmenter (C06 checks them against UAX #14/#29)",
                      "synthetic runs respect the shaper's contract: cluster boundaries are grapheme boundaries, glyph arrays in visual order",
@@ -114,6 +114,11 @@ def run_engine(c, pid):
         out = json.loads(c.vh(["wrap"] + args + [prefix, shards], timeout=7200).stdout)
         counts[name] = out
         traces += ["%s.%02d.ndjson" % (prefix, i) for i in range(shards)]
+    if not only or "real" in only.split(","):
+        prefix = os.path.join(c.scratch, "w_real")
+        out = json.loads(c.vh(["wrap", "real", 20000 if thorough else 1500, prefix, NCPU], timeout=7200).stdout)
+        counts["real"] = out
+        traces += ["%s.%02d.ndjson" % (prefix, i) for i in range(NCPU)]
     prefix = os.path.join(c.scratch, "w_bidi")
     out = json.loads(c.vh(["wrap", "bidi", bidi_n, prefix, NCPU]).stdout)
     counts["bidi"] = out
